@@ -815,6 +815,9 @@ class XInterp(Interp):
             var = Lin.sym("%s[i#%d]" % (vec.base, self.uid))
             elem = var + vec.off
         else:
+            # an iterable that is not interpreted: its elements stay opaque, the iteration number gets a symbol
+            var = Lin.sym("%s#%d" % (tname.replace(".", "_"), self.uid))
+            self.gfact(st, ZERO, "<=", var, "iteration number")
             elem = Opq("elem", [it])
         return var, elem, XLoop(var, it, node, st.atoms, kind)
 
